@@ -562,7 +562,9 @@ def unpack_collections(*args, traverse=True):
             # Treat iterators like lists
             typ = list if isinstance(expr, Iterator) else type(expr)
             if typ in (list, tuple, set):
-                tsk = Task(tok, typ, List(*[_unpack(i) for i in expr]))
+                # List([...]), not List(*...): a single element that is itself a list
+                # instance (e.g. a list subclass kept as a leaf) must not be unpacked
+                tsk = Task(tok, typ, List([_unpack(i) for i in expr]))
             elif typ in (dict, OrderedDict):
                 tsk = Task(
                     tok, typ, Dict({_unpack(k): _unpack(v) for k, v in expr.items()})
